@@ -202,11 +202,14 @@ def oracle_files(ck, rng):
         # ---- saving reflects the current state: write, change the same object in place, write again ----
         for it2 in range(3 if ck.tier == "quick" else 20):
             n = int(rng.integers(1, 6))
-            m = Molecules(rng.normal(size=(n, 3)) * 10, Rotation.random(n, random_state=int(rng.integers(0, 2**31))), features={"i": list(range(n))})
+            m = Molecules(rng.normal(size=(n, 3)) * (10 if it2 % 3 else 300), Rotation.random(n, random_state=int(rng.integers(0, 2**31))), features={"i": list(range(n))})
             _ = m.to_dataframe(); _ = m.rotvec(); _ = m.matrix()
             f0 = os.path.join(d, "s0.parquet"); m.to_file(f0)
             m.rotate_by(Rotation.random(random_state=int(rng.integers(0, 2**31))), copy=False)
             m.translate(rng.normal(size=3), copy=False)
+            if it2 % 3 == 0:
+                m.translate_internal(rng.normal(size=(n, 3)) * 3.3, copy=False)
+                m.translate_random(2.7, seed=it2, copy=False)
             if it2 % 2:
                 m.rotate_by_rotvec_internal(rng.normal(size=3) * 0.5, copy=False)
             for fmt in ("df", "parquet", "csv"):
@@ -221,6 +224,8 @@ def oracle_files(ck, rng):
                     tolp, tolr = (1e-6, 2e-6) if fmt != "csv" else (1e-5, 1e-4)
                     perr = float(np.abs(back.pos - m.pos).max()); rerr = float((back.rotator.inv() * m.rotator).magnitude().max())
                     fl = None if perr <= tolp and rerr <= tolr else f"positions off by {perr:.3g}, orientations by {rerr:.3g} rad"
+                    if fl is None and fmt != "csv" and not np.array_equal(np.asarray(back.pos), np.asarray(m.pos)):
+                        fl = f"positions are not reloaded exactly (off by {perr:.3g}; stored as {m.to_dataframe()['z'].dtype}, held as {np.asarray(m.pos).dtype})"
                 except Exception as e:  # noqa
                     fl = f"raised {type(e).__name__}: {e}"
                 if fl:
